@@ -13,6 +13,7 @@ import (
 	"io"
 	"io/ioutil"
 	"net/http/httptest"
+	"sort"
 	"strings"
 	"sync"
 
@@ -22,6 +23,9 @@ import (
 )
 
 func init() { families["join"] = drvJoin }
+
+// kekArena: the buffers of the key store, by key length (see the batch set-up)
+var kekArena = map[int][][]byte{}
 
 type joinCase struct {
 	kind            string
@@ -211,6 +215,26 @@ func (c *ctx) joinBatch(n int, concurrent bool) error {
 		if jc.asKEK != nil {
 			keks[jc.asLabel] = jc.asKEK
 			aslabels[jc.devEUI] = jc.asLabel
+		}
+	}
+	// the key store hands out per-slot buffers that live as long as the process and are overwritten IN PLACE when a batch
+	// brings other keys (a KEK rotation): what the join server made of a KEK earlier must not outlive the KEK's bytes
+	{
+		labels := make([]string, 0, len(keks))
+		for l := range keks {
+			labels = append(labels, l)
+		}
+		sort.Strings(labels)
+		used := map[int]int{}
+		for _, l := range labels {
+			n := len(keks[l])
+			if used[n] >= len(kekArena[n]) {
+				kekArena[n] = append(kekArena[n], make([]byte, n))
+			}
+			buf := kekArena[n][used[n]]
+			used[n]++
+			copy(buf, keks[l])
+			keks[l] = buf
 		}
 	}
 	// injected storage faults (the callbacks fail with an error that is not ErrDevEUINotFound)
